@@ -220,6 +220,15 @@ def next_(interp, it, node=None):
         if ctx.branch(it.pos < it.n, 'next'):
             p = it.pos
             it.pos = z3.simplify(it.pos + 1)
+            if isinstance(it, ProductIter):
+                # one arbitrary element of the product: an arbitrary element of each input
+                picks = []
+                for b_, sz in zip(it.bases, it.sizes):
+                    i_ = smt.fresh_int('pick')
+                    ctx.assume(z3.And(0 <= i_, i_ < sz))
+                    picks.append(SCell(z3.Select(b_.arr, b_.pos + i_)))
+                it.last_picks = picks
+                return tuple(picks)
             if it.arr is None:
                 return SInt(it.range_lo + p)
             return SCell(z3.Select(it.arr, p))
@@ -2343,11 +2352,39 @@ def symbolic_groupby(interp, it, key, node):
     return MapIter(gi, deliver)
 
 
+class ProductIter(SrcIter):
+    """itertools.product(a, b, ...) over symbolic inputs (T2): n1 * n2 * ... tuples, one element of each input, in lexicographic
+    (first input slowest) order.  A contracted loop sees ONE arbitrary tuple: fresh positions i_k < n_k."""
+
+    def __init__(self, interp, bases):
+        self.bases = bases
+        total = smt.fresh_int('nprod')
+        sizes = [z3.simplify(b.n - b.pos) for b in bases]
+        prod = sizes[0]
+        for s_ in sizes[1:]:
+            prod = prod * s_
+        interp.ctx.assume(z3.And(total >= 0, total == prod))
+        emit(z3.And([z3.Implies(s_ == 0, total == 0) for s_ in sizes] + [z3.Implies(z3.And([s_ > 0 for s_ in sizes]), total > 0)]))
+        SrcIter.__init__(self, None, total, 'product', 'Fresh')
+        self.sizes = sizes
+
+
 @_b('product')
 def _product(interp, args, kw, node):
     import itertools as _it
-    lists = [iter_concrete(interp, a) for a in args]
-    return ListIter([tuple(t) for t in _it.product(*lists)])
+    try:
+        lists = [iter_concrete(interp, a) for a in args]
+    except Unsupported:
+        lists = None
+    if lists is not None:
+        return ListIter([tuple(t) for t in _it.product(*lists)])
+    bases = []
+    for a in args:
+        it = get_iter(interp, a, node)
+        if not (isinstance(it, SrcIter) and it.arr is not None):
+            raise Unsupported('itertools.product over %r' % (a,))
+        bases.append(it)
+    return ProductIter(interp, bases)
 
 
 def _opfn(astop):
